@@ -62,9 +62,10 @@ func vxIsAttackedSummary(p *Position, sq Square, by Color) bool {
 }
 
 // IsLegalMove / DoMove+WasLegalMove == rules. Case split: origin, destination, move type concrete.
-func VN_C09_move_legality() int { return 4 * 4096 }
-func VQ_C09_move_legality() int { return 128 }
-func VH_C09_move_legality(k int) {
+func VN_C09_move_legality() int { return vxNumFeasible() }
+func VQ_C09_move_legality() int { return 16 }
+func VH_C09_move_legality(i int) {
+	k := vxNthFeasible(i)
 	vxStub("(*github.com/frankkopp/FrankyGo/internal/position.Position).IsAttacked", vxIsAttackedSummary)
 	m := vxMoveSqRaw(k)
 	p, s := VxSymPosL("", true)
@@ -82,9 +83,10 @@ func VH_C09_move_legality(k int) {
 
 // GivesCheck(m) == the opponent is in check after m (legal moves: for an illegal king step next to
 // the enemy king "check" is not defined by the rules).
-func VN_C09_gives_check() int { return 4 * 4096 }
-func VQ_C09_gives_check() int { return 32 }
-func VH_C09_gives_check(k int) {
+func VN_C09_gives_check() int { return vxNumFeasible() }
+func VQ_C09_gives_check() int { return 8 }
+func VH_C09_gives_check(i int) {
+	k := vxNthFeasible(i)
 	vxStub(vxGetAttacksBb, VxGeoAttacks)
 	m := vxMoveSqRaw(k)
 	p, s := VxSymPosL("", true)
